@@ -1,10 +1,20 @@
-Check (C11_flush_emits_segment_based_at_first_dts : forall (m : fmuxer) (b : bytes), snd (f_flush m) = FrSeg (Some b) ->
-  exists s0 rest, rev (fm_samples_rev m) = s0 :: rest /\ b = build_media_segment (s0 :: rest) (fm_seq m) (fs_dts s0)).
-Check (C11_segment_timing_reads_back : forall (l : list frag_sample) (s0 : frag_sample) (rest : list frag_sample) (seq : N),
-  l = s0 :: rest -> seg_fits l -> (96 + 16 * len l < 2147483648)%N -> (seq < 4294967296)%N ->
-  exists v, segment_read (build_media_segment l seq (fs_dts s0)) = Some v /\ sv_tfdt v = fs_dts s0 /\
+Open Scope N_scope.
+Check (C11_flush_emits_segment_based_at_first_dts : (forall (m : fmuxer) (b : bytes),
+  snd (f_flush m) = FrSeg (Some b) ->
+  exists s0 rest, rev (fm_samples_rev m) = s0 :: rest /\
+                  b = build_media_segment (s0 :: rest) (fm_seq m) (fs_dts s0))%type).
+Check (C11_segment_timing_reads_back : (forall (l : list frag_sample) (s0 : frag_sample) (rest : list frag_sample) (seq : N),
+  l = s0 :: rest -> seg_fits l -> 96 + 16 * len l < 2147483648 -> seq < 4294967296 ->
+  exists v, segment_read (build_media_segment l seq (fs_dts s0)) = Some v /\
+            sv_tfdt v = fs_dts s0 /\
             map ss_duration (sv_samples v) = spec_durations None l /\
             map ss_cts (sv_samples v) = map (fun s => (Z.of_N (fs_pts s) - Z.of_N (fs_dts s))%Z) l /\
-            map ss_sync (sv_samples v) = map fs_sync l /\ map ss_data (sv_samples v) = map fs_data l).
-Check (C11_emitted_decode_times_never_go_back : forall (ops : list fop), StronglySorted (fun a b => (a <= b)%N) (all_dts (aq_run aq_init ops))).
-Check (C11_init_segment_is_stable : forall (c : frag_config) (ops : list fop) (b : bytes), In (FrBytes b) (snd (frun (fmuxer_new c) ops)) -> b = init_segment_bytes c).
+            map ss_sync (sv_samples v) = map fs_sync l /\
+            map ss_data (sv_samples v) = map fs_data l)%type).
+Check (C11_emitted_decode_times_never_go_back : (forall (ops : list fop),
+  StronglySorted (fun a b => a <= b) (all_dts (aq_run aq_init ops)))%type).
+Check (C11_init_segment_is_stable : (forall (c : frag_config) (ops : list fop) (b : bytes),
+  In (FrBytes b) (snd (frun (fmuxer_new c) ops)) -> b = init_segment_bytes c)%type).
+Check (C11_fragmented_history_timeline_is_consistent : (forall (c : frag_config) (ops : list fop),
+  all_segments_fit ops ->
+  check_C11 ops (map fout_of (snd (frun (fmuxer_new c) ops))) = true)%type).
